@@ -40,6 +40,7 @@ type LogBufSpec struct {
 	Subs    []LBSub    `json:"subs"`
 	Grid    int        `json:"grid,omitempty"` // >0: sequential exhaustive (offset,limit) grid on a log of this many lines
 	Trim    int        `json:"trim,omitempty"` // >0: sequential trim arm: write this many lines, checking the window
+	Race    bool       `json:"race,omitempty"` // concurrent trim arm: readers take windows while the log drops its oldest lines
 }
 
 func runLogBuf(sc *Scenario) {
@@ -238,6 +239,31 @@ func checkC18(sc *Scenario, res *RunResult, t *Truth) []Violation {
 		}
 	}
 	if spec.Grid > 0 || spec.Trim > 0 {
+		return vs
+	}
+	if spec.Race {
+		// every window is a piece of the log as it was at some moment: per writer its lines are
+		// consecutive (a panic of the call has been reported above)
+		for i := range evs {
+			e := &evs[i]
+			if e.Kind != "lb.r.ret" {
+				continue
+			}
+			win, _ := e.Data.([]string)
+			last := map[int]int{}
+			for _, id := range win {
+				var wi, k int
+				if n, _ := fmt.Sscanf(id, "w%d-%d", &wi, &k); n != 2 {
+					vs = append(vs, Violation{"C18", "range-wrong-window", "race", fmt.Sprintf("GetLogRange(%s) returned the line %q, which nobody wrote", e.A, id), e.Seq})
+					return vs
+				}
+				if l, ok := last[wi]; ok && k != l+1 {
+					vs = append(vs, Violation{"C18", "range-wrong-window", "race", fmt.Sprintf("GetLogRange(%s) returned a window in which %s follows w%d-%d: the log never held that", e.A, id, wi, l), e.Seq})
+					return vs
+				}
+				last[wi] = k
+			}
+		}
 		return vs
 	}
 	// concurrent arm: final order
